@@ -3,6 +3,7 @@ package protocol
 import (
 	"encoding/hex"
 	"encoding/json"
+	"errors"
 	"math/big"
 
 	"github.com/google/uuid"
@@ -200,6 +201,9 @@ func (q *Quality) Msg() *MsgQuality {
 }
 
 func (q *Quality) SetMsg(msg *MsgQuality) error {
+	if msg == nil {
+		return errors.New("nil quality")
+	}
 	publicKey, err := newG1ElementFromString(msg.PublicKey)
 	if err != nil {
 		return err
@@ -408,6 +412,9 @@ func (p *Proof) Msg() *MsgProof {
 }
 
 func (p *Proof) SetMsg(msg *MsgProof) error {
+	if msg == nil {
+		return errors.New("nil proof")
+	}
 	challenge, err := pocutil.DecodeStringToHash(msg.Challenge)
 	if err != nil {
 		return err
